@@ -113,13 +113,21 @@ def snapshot(ctx) -> None:
             if isinstance(a, (ast.Assign, ast.AnnAssign)):
                 tgt = a.targets[0] if isinstance(a, ast.Assign) else a.target
                 if attr_of_name(tgt, selfn, "_history") and a.value is not None:
-                    v = a.value
-                    if isinstance(v, ast.List):
-                        vals += list(v.elts)
-                    elif isinstance(v, ast.Subscript) and attr_of_name(v.value, selfn, "_history"):
-                        pass  # slicing the history itself
-                    else:
-                        vals.append(v)
+                    def parts(v, at, depth=0):
+                        # the entries a new history list is made of: list displays, concatenations, slices of the history itself
+                        if isinstance(v, ast.Name) and depth < 4:
+                            raw, d = fv.def_expr(v, at)
+                            if raw is not v:
+                                return parts(raw, d, depth + 1)
+                        if isinstance(v, ast.List):
+                            return list(v.elts)
+                        if isinstance(v, ast.BinOp) and isinstance(v.op, ast.Add):
+                            return parts(v.left, at, depth + 1) + parts(v.right, at, depth + 1)
+                        if isinstance(v, ast.Subscript) and isinstance(v.slice, ast.Slice) and attr_of_name(v.value, selfn, "_history"):
+                            return []  # slicing the history itself
+                        return [v]
+
+                    vals += parts(a.value, node.id)
             for v in vals:
                 n += 1
                 t = fv.res.resolve(v, node.id)
@@ -364,7 +372,7 @@ def report(ctx) -> None:
         n = fv.cfg.nodes[i]
         if n.kind == "stmt" and isinstance(n.ast, ast.AugAssign):
             cond = fv.controlling(i, within=body)
-            if not cond and len(state_names) == 2 and any(isinstance(s, ast.Name) and s.id == state_names[1] for s in ast.walk(n.ast.value)):
+            if not cond and len(state_names) == 2 and state_names[1] in _root_names(fv, n.ast.value, i):
                 hit = True
     ctx.rep.check(hit, rule, f"{f.qualname}/state", "every entry's state is printed unconditionally", "the state of an entry is not printed on every iteration", where=f.where(lp.ast))
 
